@@ -42,11 +42,12 @@ Fixpoint zunion (a b : list Z) : list Z :=
 Definition lookup_chunks (lc : list (Z * list Z)) (x : Z) : list Z :=
   match find (fun l => fst l =? x) lc with Some l => snd l | None => [] end.
 
-(* dict assignment merged_cohorts[key] = cohort : overwrite keeps the position *)
+(* merged_cohorts[key] = cohort, or, when two merged cohorts occupy exactly the same blocks,
+   merged_cohorts[key] = sorted(merged_cohorts[key] + cohort)  (the entry keeps its position) *)
 Fixpoint dict_set (key : list Z) (v : list Z) (d : list (list Z * list Z)) : list (list Z * list Z) :=
   match d with
   | [] => [(key, v)]
-  | (k, w) :: r => if list_eqb k key then (k, v) :: r else (k, w) :: dict_set key v r
+  | (k, w) :: r => if list_eqb k key then (k, zsort (w ++ v)) :: r else (k, w) :: dict_set key v r
   end.
 
 (* stable insertion sort of rows by (count descending, index descending) and of cohorts by first label *)
